@@ -259,7 +259,20 @@ func runC08(r *Report, tier string) {
 							}
 						})
 					}
-					if !okN || !okD {
+					// the entry itself goes into the output under the normalised
+					// label: stored under the caller's spelling, int(2) and the
+					// field emitted as int64(2) are two Go keys and one CBOR key
+					rawKey := ""
+					p.instrs(func(in ssa.Instruction) {
+						if mu, ok := in.(*ssa.MapUpdate); ok && mu.Value.Type().String() != "struct{}" {
+							if ks := p.eng.of(mu.Key).String(); strings.Contains(ks, "range(") && !strings.Contains(ks, "call<"+shortFn(norm)+">") {
+								rawKey = ks
+							}
+						}
+					})
+					if rawKey != "" {
+						why = "a parameter is stored in the output map under its un-normalised label " + truncate(rawKey, 60) + ": a label spelt with another Go integer type than the one already present is emitted twice"
+					} else if !okN || !okD {
 						why = fmt.Sprintf("a parameter can be copied without normalisation (%v) / duplicate test (%v)", okN, okD)
 					} else if !inserted {
 						why = "a copied parameter's normalised label is not recorded in the seen-set"
@@ -293,6 +306,8 @@ func mutC08() []mutant {
 			Old: "\t\treturn []byte{0xa0}, nil", New: "\t\treturn []byte{0xbf, 0xff}, nil"},
 		{Name: "protected header's outer byte string assembled by hand", File: "headers.go", Rule: "R08.2",
 			Old: "\treturn encMode.Marshal(encoded)\n}", New: "\tif len(encoded) < 23 {\n\t\treturn append([]byte{0x40 | byte(len(encoded))}, encoded...), nil\n\t}\n\treturn encMode.Marshal(encoded)\n}"},
+		{Name: "Key.MarshalCBOR stores a parameter under the caller's spelling of its label", File: "key.go", Rule: "R08.6", Key: "labels",
+			Old: "\t\ttmp[lbl] = v\n", New: "\t\ttmp[label] = v\n"},
 		{Name: "Key.MarshalCBOR copies parameters without the duplicate test", File: "key.go", Rule: "R08.6",
 			Old: "\t\tif _, ok := existing[lbl]; ok {\n\t\t\treturn nil, fmt.Errorf(\"duplicate label %v\", lbl)\n\t\t}\n", New: ""},
 		{Name: "a second encode mode with different options", File: "cbor.go", Rule: "R08.1",
